@@ -418,3 +418,168 @@ Proof.
     unfold a_call, a_send; cbn [a_recv];
     (destruct t as [v|e|]; [split; reflexivity | destruct e; try (split; reflexivity); exfalso; apply Ht; reflexivity | split; reflexivity]).
 Qed.
+
+(* ------------------------------------------------------------------ whole API, both clients: no exception of its own -- *)
+(* [step_closed f]: whatever one primitive raises is one of the layer's own three signals or was raised by a socket method
+   on a token of the script it was given, and what it leaves is a suffix of that script *)
+Definition suffix (r s : list tok) : Prop := exists p, s = p ++ r.
+Lemma suffix_refl s : suffix s s. Proof. exists []. reflexivity. Qed.
+Lemma suffix_cons t r s : suffix r s -> suffix r (t :: s).
+Proof. intros [p ->]. exists (t :: p). reflexivity. Qed.
+Lemma suffix_trans a b c : suffix a b -> suffix b c -> suffix a c.
+Proof. intros [p ->] [q ->]. exists (q ++ p). rewrite app_assoc. reflexivity. Qed.
+Lemma suffix_in x r s : suffix r s -> In x r -> In x s.
+Proof. intros [p ->] H. apply in_or_app. right. exact H. Qed.
+Lemma suffix_nil s : suffix [] s. Proof. exists s. rewrite app_nil_r. reflexivity. Qed.
+
+Definition closed_out (script : list tok) (o : pyout) (rest : list tok) : Prop :=
+  suffix rest script /\ forall e, o = PRaise e -> added_exc e \/ In (TRaise e) script.
+
+Lemma sync_call_closed_out pol iter m a script :
+  let '(_, o, r) := sync_call pol iter m a script in closed_out script o r.
+Proof.
+  unfold sync_call. destruct script as [|t r]; cbn.
+  - split; [apply suffix_refl | intros e H; discriminate].
+  - split; [apply suffix_cons, suffix_refl|]. intros e H. apply remap_sync_closed in H.
+    destruct H as [H | ->]; [left; exact H | right; left; reflexivity].
+Qed.
+
+Lemma a_recv_closed_out m a script :
+  let '(_, o, r) := a_recv m a script in closed_out script o r.
+Proof.
+  induction script as [|t s IH]; cbn [a_recv].
+  - split; [apply suffix_refl | intros e H; discriminate].
+  - destruct t as [v|e0|].
+    + split; [apply suffix_cons, suffix_refl | intros e H; discriminate].
+    + destruct e0; try (split; [apply suffix_cons, suffix_refl | intros e H; injection H as <-; right; left; reflexivity]).
+      destruct (a_recv m a s) as [[evs o] r']. destruct IH as [Hs Hc]. split; [apply suffix_cons; exact Hs|].
+      intros e H. destruct (Hc e H) as [Ha | Hi]; [left; exact Ha | right; right; exact Hi].
+    + split; [apply suffix_cons, suffix_refl|]. intros e H. injection H as <-. left. left. reflexivity.
+Qed.
+
+Lemma a_send_closed_out pol m a script :
+  let '(_, o, r) := a_send pol m a script in closed_out script o r.
+Proof.
+  unfold a_send. destruct script as [|t s]; [split; [apply suffix_refl | intros e H; discriminate]|].
+  destruct t as [v|e0|].
+  - split; [apply suffix_cons, suffix_refl | intros e H; discriminate].
+  - destruct e0; try (split; [apply suffix_cons, suffix_refl | intros e H; injection H as <-; right; left; reflexivity]).
+    destruct s as [|t2 s2]; [split; [apply suffix_cons, suffix_refl | intros e H; discriminate]|].
+    destruct t2 as [v2|e2|].
+    + split; [apply suffix_cons, suffix_cons, suffix_refl | intros e H; discriminate].
+    + split; [apply suffix_cons, suffix_cons, suffix_refl|]. intros e H. injection H as <-. right. right. left. reflexivity.
+    + split; [apply suffix_cons, suffix_refl | intros e H; discriminate].
+  - split; [apply suffix_cons, suffix_refl | intros e H; discriminate].
+Qed.
+
+Lemma a_call_closed_out pol ms mr a1 a2 script :
+  let '(_, o, r) := a_call pol ms mr a1 a2 script in closed_out script o r.
+Proof.
+  unfold a_call. pose proof (a_send_closed_out pol ms a1 script) as H1.
+  destruct (a_send pol ms a1 script) as [[e1 o1] s1]. destruct H1 as [Hs1 Hc1].
+  destruct o1 as [v|ex| |]; try (split; [exact Hs1 | exact Hc1]).
+  pose proof (a_recv_closed_out mr a2 s1) as H2. destruct (a_recv mr a2 s1) as [[e2 o2] s2]. destruct H2 as [Hs2 Hc2].
+  split; [exact (suffix_trans _ _ _ Hs2 Hs1)|]. intros e H. destruct (Hc2 e H) as [Ha | Hi]; [left; exact Ha | right; exact (suffix_in _ _ _ Hs1 Hi)].
+Qed.
+
+Lemma take_reply_closed_out stop evs o r script :
+  (stop = EStopIteration \/ stop = EStopAsyncIteration) -> closed_out script o r ->
+  let '(_, o', _, r') := take_reply stop evs o r in closed_out script o' r'.
+Proof.
+  intros Hstop [Hs Hc]. unfold take_reply.
+  assert (Hstop' : added_exc stop) by (destruct Hstop as [-> | ->]; [right; left | right; right]; reflexivity).
+  destruct o as [v|ex| |].
+  - destruct v as [id|l].
+    + split; [exact Hs | intros e H; discriminate].
+    + destruct l as [|x l].
+      * split; [exact Hs|]. intros e H. injection H as <-. left. exact Hstop'.
+      * destruct (pop_or_stop stop (x :: l)) as [o' b'] eqn:E. split; [exact Hs|]. intros e ->.
+        left. rewrite (pop_or_stop_out stop (x :: l) e) by (rewrite E; reflexivity). exact Hstop'.
+  - split; [exact Hs | exact Hc].
+  - split; [exact Hs | intros e H; discriminate].
+  - split; [exact Hs | intros e H; discriminate].
+Qed.
+
+Definition next_closed (next : list (option Z) -> list tok -> list ev * pyout * list (option Z) * list tok) : Prop :=
+  forall buf script, let '(_, o, _, r) := next buf script in closed_out script o r.
+
+Lemma pop_closed stop buf script : (stop = EStopIteration \/ stop = EStopAsyncIteration) ->
+  closed_out script (fst (pop_or_stop stop buf)) script.
+Proof.
+  intros Hstop. split; [apply suffix_refl|]. intros e H. left. rewrite (pop_or_stop_out stop buf e H).
+  destruct Hstop as [-> | ->]; [right; left | right; right]; reflexivity.
+Qed.
+
+Lemma sync_bulk_next_closed pol : next_closed (sync_bulk_next pol).
+Proof.
+  intros buf script. unfold sync_bulk_next. destruct buf as [|x b].
+  - pose proof (sync_call_closed_out pol true MGetBulk ACtx script) as H.
+    destruct (sync_call pol true MGetBulk ACtx script) as [[evs o] r].
+    pose proof (take_reply_closed_out EStopIteration evs o r script (or_introl eq_refl) H) as H2.
+    destruct (take_reply EStopIteration evs o r) as [[[e' o'] b'] r']. exact H2.
+  - pose proof (pop_closed EStopIteration (x :: b) script (or_introl eq_refl)) as H.
+    destruct (pop_or_stop EStopIteration (x :: b)) as [o b']. exact H.
+Qed.
+Lemma async_bulk_next_closed pol : next_closed (async_bulk_next pol).
+Proof.
+  intros buf script. unfold async_bulk_next. destruct buf as [|x b].
+  - pose proof (a_call_closed_out pol MSendGetBulk MRecvGetBulk ACtx ACtx script) as H.
+    destruct (a_call pol MSendGetBulk MRecvGetBulk ACtx ACtx script) as [[evs o] r].
+    pose proof (take_reply_closed_out EStopAsyncIteration evs o r script (or_intror eq_refl) H) as H2.
+    destruct (take_reply EStopAsyncIteration evs o r) as [[[e' o'] b'] r']. exact H2.
+  - pose proof (pop_closed EStopAsyncIteration (x :: b) script (or_intror eq_refl)) as H.
+    destruct (pop_or_stop EStopAsyncIteration (x :: b)) as [o b']. exact H.
+Qed.
+Lemma sync_next_next_closed pol : next_closed (sync_next_next pol).
+Proof.
+  intros buf script. unfold sync_next_next. pose proof (sync_call_closed_out pol true MGetNext ACtx script) as H.
+  destruct (sync_call pol true MGetNext ACtx script) as [[evs o] r]. exact H.
+Qed.
+Lemma async_next_next_closed pol : next_closed (async_next_next pol).
+Proof.
+  intros buf script. unfold async_next_next. pose proof (a_call_closed_out pol MSendGetNext MRecvGetNext ACtx ACtx script) as H.
+  destruct (a_call pol MSendGetNext MRecvGetNext ACtx ACtx script) as [[evs o] r]. exact H.
+Qed.
+
+Lemma iterate_closed next : next_closed next ->
+  forall fuel buf script0 script evs items, suffix script script0 ->
+  closed_out script0 (r_end (iterate fuel next buf script evs items)) (r_rest (iterate fuel next buf script evs items)).
+Proof.
+  intros Hn fuel. induction fuel as [|f IH]; intros buf script0 script evs items Hsuf; cbn [iterate].
+  - split; [exact Hsuf | intros e H; discriminate].
+  - specialize (Hn buf script). destruct (next buf script) as [[[e o] buf'] script']. destruct Hn as [Hs Hc].
+    assert (Hs0 : suffix script' script0) by exact (suffix_trans _ _ _ Hs Hsuf).
+    assert (Hc0 : forall ex, o = PRaise ex -> added_exc ex \/ In (TRaise ex) script0).
+    { intros ex H. destruct (Hc ex H) as [Ha | Hi]; [left; exact Ha | right; exact (suffix_in _ _ _ Hsuf Hi)]. }
+    destruct o as [v|ex| |]; cbn [r_end r_rest].
+    + destruct v as [id|l]; [apply IH; exact Hs0 | split; [exact Hs0 | intros ex H; discriminate]].
+    + split; [exact Hs0 | exact Hc0].
+    + split; [exact Hs0 | intros ex H; discriminate].
+    + split; [exact Hs0 | intros ex H; discriminate].
+Qed.
+
+(* Whatever an API call of either client raises is TimeoutError, an end-of-iteration signal, or an exception that a
+   socket method raised during that call. *)
+Theorem api_exceptions_closed cfg fuel a script e :
+  r_end (run_api cfg fuel a script) = PRaise e -> added_exc e \/ In (TRaise e) script.
+Proof.
+  unfold run_api, walk_next_api, walk_bulk_api, single.
+  assert (Hit : forall next b ev0, next_closed next ->
+            r_end (iterate fuel next b script ev0 []) = PRaise e -> added_exc e \/ In (TRaise e) script).
+  { intros next b ev0 Hn H. destruct (iterate_closed next Hn fuel b script script ev0 [] (suffix_refl _)) as [_ Hc]. exact (Hc e H). }
+  destruct a as [oid|oids|oid|oid req|oid]; destruct (pc_mode cfg).
+  - pose proof (sync_call_closed_out (pc_policer cfg) false MGet (AOid oid) script) as H.
+    destruct (sync_call (pc_policer cfg) false MGet (AOid oid) script) as [[ev0 o] r]. cbn [r_end]. intros ->. exact (proj2 H e eq_refl).
+  - pose proof (a_call_closed_out (pc_policer cfg) MSendGet MRecvGet (AOid oid) ANone script) as H.
+    destruct (a_call (pc_policer cfg) MSendGet MRecvGet (AOid oid) ANone script) as [[ev0 o] r]. cbn [r_end]. intros ->. exact (proj2 H e eq_refl).
+  - pose proof (sync_call_closed_out (pc_policer cfg) false MGetMany (AOids oids) script) as H.
+    destruct (sync_call (pc_policer cfg) false MGetMany (AOids oids) script) as [[ev0 o] r]. cbn [r_end]. intros ->. exact (proj2 H e eq_refl).
+  - pose proof (a_call_closed_out (pc_policer cfg) MSendGetMany MRecvGetMany (AOids oids) ANone script) as H.
+    destruct (a_call (pc_policer cfg) MSendGetMany MRecvGetMany (AOids oids) ANone script) as [[ev0 o] r]. cbn [r_end]. intros ->. exact (proj2 H e eq_refl).
+  - apply Hit, sync_next_next_closed.
+  - apply Hit, async_next_next_closed.
+  - apply Hit, sync_bulk_next_closed.
+  - apply Hit, async_bulk_next_closed.
+  - destruct (session_allow_bulk (pc_version cfg) (pc_allow_bulk cfg)); apply Hit; [apply sync_bulk_next_closed | apply sync_next_next_closed].
+  - destruct (session_allow_bulk (pc_version cfg) (pc_allow_bulk cfg)); apply Hit; [apply async_bulk_next_closed | apply async_next_next_closed].
+Qed.
